@@ -542,7 +542,7 @@ class JwtClientAuth(_JBCA):
 
     def validate_jti(self, claims, jti):
         self.store.cb("validate_jti")
-        key = (claims["sub"], jti)
+        key = "jti:{}-{}".format(claims["sub"], jti)      # as in the documented example
         if key in self.store.jtis:
             return False
         self.store.jtis.add(key)
